@@ -118,6 +118,11 @@ def address_corpus(tier, seed, model, cross=True):
         d = ".".join([ch * rep] * nlab) + ".com"
         out.add(b"user@" + d.encode("utf-8"))
         out.add(b"user@" + d.encode("utf-8") + b".")
+    # code points that alias structural characters after a narrowing conversion, and combining marks, next to dots and quotes
+    for cp in gen.aliasing_code_points()[:: (3 if tier == "quick" else 1)]:
+        x = chr(cp).encode("utf-8")
+        for l in (x + b".a", b"a." + x, b"a." + x + b".b", b'"' + x + b'"', x + b"a"):
+            out.add(l + b"@a.bc")
     # two long-ish halves at once: local-part length x domain length grid (limits that depend on the *sum* or on both)
     def _dom(n):
         labs, left = [], n - 3
